@@ -12,6 +12,7 @@
 #include <cstdlib>
 #include <fcntl.h>
 #include <sys/mman.h>
+#include <signal.h>
 #include <sys/stat.h>
 #include <unistd.h>
 #include <set>
@@ -133,10 +134,25 @@ void save_violation(const char *name, const uint8_t *t, size_t n, const std::str
   write_file(base + ".txt", txt.data(), txt.size());
 }
 
+// Per-case watchdog (VERIF_CASE_TIMEOUT seconds of wall clock, opt-in): for properties that say "never loops forever" a case that
+// does not return is the violation.  The process dies with a recognisable line; the supervisor picks up the current tape and replays it.
+static void on_case_timeout(int) {
+  static const char msg[] = "VERIF-CASE-TIMEOUT: the case did not return within the watchdog time\n";
+  ssize_t r = write(2, msg, sizeof msg - 1);
+  (void)r;
+  _exit(124);
+}
+static unsigned case_timeout() {
+  static int v = -1;
+  if (v < 0) { const char *e = getenv("VERIF_CASE_TIMEOUT"); v = e ? atoi(e) : 0; if (v > 0) signal(SIGALRM, on_case_timeout); }
+  return (unsigned)v;
+}
+
 // Run one case and account for it. count=false while shrinking.
 int run_one(const uint8_t *t, size_t n, bool count, Info *out) {
   Info info;
   cur_set(t, n);
+  struct AlarmGuard { AlarmGuard() { if (case_timeout()) alarm(case_timeout()); } ~AlarmGuard() { if (case_timeout()) alarm(0); } } alarm_guard;
   // sample renders: first 4, then every power-of-two-th non-trivial case
   info.want_render = true;
   int v = verif_case(t, n, &info);
